@@ -141,6 +141,17 @@ class Oracle(object):
     with world.observed():
       df = est.decision_function(arg)
       pred = est.predict(arg) if (ts != 2 or hasattr(est, "threshold_")) else None
+    info = live.get("probe_info") or {}
+    if info.get("huge_row") is not None and live["via"] == "formed" and len(formed) == len(df):
+      # the batch held one astronomically long tuple: the answers for the other tuples - taken
+      # from that same call - are judged against distances computed without it
+      keep = np.arange(len(df)) != info["huge_row"]
+      hp = None if pred is None else int(pred[info["huge_row"]])
+      if hp is not None and hp not in ((1, -1) if ts != 4 else (1, -1, 0)):
+        raise Violation("predict_values", "cls=%s,huge" % h.name, "prediction %r for the long tuple" % hp)
+      df, formed = df[keep], formed[keep]
+      pred = None if pred is None else pred[keep]
+      m.cov["batches_with_overflowing_tuple"] += 1
     if ts == 2:
       dist = est.pair_distance(formed)
       if not ulp_close(df, -dist, 1):
